@@ -131,7 +131,7 @@ prop(
     level_note="Conditions whose truth the documentation leaves open (overflow, cross-type ordering, '' vs null cells) are skipped and counted.",
     assumptions=[TRUST_MODEL, TRUST_CFB],
     design_ref="3/C03",
-    min_counters={"quick": {"alphabet_sequences": 40000, "selects_checked": 20000, "call_ok_update_where": 1000}, "thorough": {"alphabet_sequences": 500000}},
+    min_counters={"quick": {"alphabet_sequences": 60000, "selects_checked": 20000, "call_ok_update_where": 1000}, "thorough": {"alphabet_sequences": 500000}},
 )
 
 prop(
@@ -145,7 +145,7 @@ prop(
     level_note="Order is checked pairwise with the documented order (ints numeric, strings by scalar value); null vs non-null placement is not constrained.",
     assumptions=[TRUST_MODEL],
     design_ref="3/C05",
-    min_counters={"quick": {"alphabet_sequences": 19000}, "thorough": {"alphabet_sequences": 130000}},
+    min_counters={"quick": {"alphabet_sequences": 7000}, "thorough": {"alphabet_sequences": 130000}},
 )
 
 prop(
